@@ -23,7 +23,7 @@ pub fn prop() -> Prop {
             Sub::tape("round_random", 8, 20_000, 1_000_000, round_random),
             Sub::tape("triangles_random", 12, 100_000, 5_000_000, triangles_random),
             Sub::tape("sectors", 10, 60_000, 3_000_000, sectors).with_fp(),
-            Sub::tape("large_shapes", 24, 800, 40_000, large_shapes),
+            Sub::tape("large_shapes", 24, 1_600, 80_000, large_shapes),
         ],
     }
 }
@@ -202,6 +202,7 @@ fn rrect_random(d: &mut Dec, cx: &mut Cx) -> Res {
     let rc = gen::rect(d, 12, if big { 40 } else { 14 });
     let radii = gen::corner_radii(d, if big { 60 } else { 16 });
     let s = Shape::RRect(RoundedRectangle::new(rc, radii));
+    let s = s.translate(gen::far_offset(d));
     cx.describe(|| format!("{:?}", s));
     cx.class(if big { "big" } else { "small" });
     let r = check_shape(&s)?;
@@ -218,6 +219,7 @@ fn round_random(d: &mut Dec, cx: &mut Cx) -> Res {
         cx.class("ellipse");
         Shape::Ellipse(Ellipse::new(p, Size::new(d.u(0, 200), d.u(0, 200))))
     };
+    let s = s.translate(gen::far_offset(d));
     cx.describe(|| format!("{:?}", s));
     let r = check_shape(&s)?;
     cx.nontrivial(r.n_points >= 3 && !r.full_rect);
@@ -248,6 +250,7 @@ pub fn nonflat_triangle(d: &mut Dec, r: i32) -> Triangle {
 fn triangles_random(d: &mut Dec, cx: &mut Cx) -> Res {
     let t = nonflat_triangle(d, 40);
     let s = Shape::Triangle(t);
+    let s = s.translate(gen::far_offset(d));
     cx.describe(|| format!("{:?}", s));
     let [a, b, c] = t.vertices;
     let thin = orient(a, b, c).abs() <= 40;
@@ -261,6 +264,7 @@ fn sectors(d: &mut Dec, cx: &mut Cx) -> Res {
     let p = gen::point(d, 30);
     let dia = d.size(48);
     let (a0, a1) = (gen::angle_deg(d), gen::angle_deg(d));
+    let p = p + gen::far_offset(d);
     let s = Shape::Sector(Sector::new(p, dia, a0.deg(), a1.deg()));
     cx.describe(|| format!("Sector top_left={:?} d={} start={} sweep={}", p, dia, a0, a1));
     cx.class(if a1.abs() >= 360.0 { "full" } else if a1 == 0.0 { "zero_sweep" } else { "partial" });
@@ -291,6 +295,7 @@ fn large_shapes(d: &mut Dec, cx: &mut Cx) -> Res {
             k += 1;
         }
     }
+    let s = s.translate(gen::far_offset(d));
     cx.describe(|| format!("{:?}", s));
     cx.class(s.kind());
     let r = check_shape(&s)?;
